@@ -60,6 +60,10 @@ def check(case):
     base = X.aligned(doc, kdoc, a)
     encs = ENCS6 if case['agnostic'] else ENCS4
     evals = 0
+    primed = K.primed_exporter()
+    for e in encs:
+        if K.via_primed(primed, kdoc, encoding=K.ENCODINGS[e]) != K.dumps(kdoc, encoding=K.ENCODINGS[e]):
+            raise Bad('exporter-with-a-past', f'{e}: an Exporter object that exported other documents before gives a different text than dumps')
     differing = False
     for inc, exc in [[None, None]] + case['sels']:
         kw = {}
